@@ -42,6 +42,8 @@ def scenarios(ctx):
         S("file.gz.deep.fetch", "file", op="fetch"),
         S("file.plain.flat.fetch", "file", flat=True, gzip=False, op="fetch"),
         S("file.store_info", "file", op="store_info"),
+        S("file.store_meta", "file", op="store_meta"),
+        S("sharded.store_meta", "sharded", op="store_meta"),
         S("file.fetch_info", "file", op="fetch_info"),
         S("file.exists", "file", op="exists"),
         S("sharded.mem.raw.session", "sharded", op="store_new", strategy="in memory", enc="raw"),
